@@ -49,6 +49,17 @@ Definition is_super_slice (slice : Span -> path) (dl : DefinitionLocation) : boo
   | _ => false
   end.
 
+(* the text at a definition site is an identifier ([A-Za-z0-9_]+; programs are ASCII): the sites of `-` and `+` are braces *)
+Definition is_ident_char (c : N) : bool :=
+  (N.leb 48 c && N.leb c 57) || (N.leb 65 c && N.leb c 90) || (N.leb 97 c && N.leb c 122) || N.eqb c 95.
+Definition ident_ok (id : ident) : bool :=
+  match id with [] => false | _ => forallb is_ident_char id end.
+Definition def_site_is_identifier (slice : Span -> path) (loc : DefinitionLocation) : bool :=
+  match slice (dl_span loc) with
+  | [id] => ident_ok id
+  | _ => false
+  end.
+
 Inductive RenameResult :=
 | RenNone                                   (* the request is answered with null *)
 | RenEdits (g' : graph) (edits : list TextEdit)
@@ -59,6 +70,7 @@ Definition rename_symbol (fuel : nat) (g : graph) (slice : Span -> path) (def_sy
   match location d with
   | None => RenNone
   | Some loc =>
+      if negb (def_site_is_identifier slice loc) then RenNone else
       match usage_steps fuel g slice (usages d) with
       | None => RenOutOfFuel
       | Some steps =>
@@ -85,4 +97,5 @@ Definition rename_handler (fuel : nat) (g : graph) (a : Analysis) (slice : Span 
 
 (* PrepareRenameRequestHandler (the part that decides): an identifier other than `super` on which something is found *)
 Definition prepare_rename (a : Analysis) (id_under_cursor : ident) (file line col : nat) : bool :=
+  negb (match id_under_cursor with [] => true | _ => false end) &&
   negb (is_super id_under_cursor) && negb (match find_ a file line col with [] => true | _ => false end).
